@@ -128,6 +128,8 @@ def parse_file(fname):
                     h.extra_stubs.append(val)
                 elif cur == "unwind":
                     h.unwind = int(val)
+                elif cur == "tier":
+                    h.stub_tier = val.strip().upper()
                 elif cur == "unwindset":
                     for kv in val.split(","):
                         k, _, v = kv.strip().partition("=")
